@@ -222,7 +222,7 @@ theorem dataSide_wf (a : ASide) : (dataSide a).length = 1280 ∧ ∀ s ∈ dataS
       · exact foldSet_all (fun p : Nat × Bytes => p.1) (fun p => p.2) (fun s => s.length = 256) _ sd h2 (fileSectors_len a.filler f)
   exact key a.files _ (List.length_replicate ..) (by intro s hs; rw [List.eq_of_mem_replicate hs]; exact List.length_replicate ..)
 
-def tableSector (a : ASide) : Bytes := [a.byte0] ++ Spec.Dos.tableOf a ++ List.replicate 95 a.tableTail
+def tableSector (a : ASide) : Bytes := [a.byte0] ++ Spec.Dos.tableOf a ++ (List.range 95).map fun i => (a.tableTail * (i + 1)) % 256
 def catSector (a : ASide) (k : Nat) : Bytes := (((Spec.Dos.catalogOf a).drop (8 * k)).take 8).flatten
 
 theorem render_eq (a : ASide) :
